@@ -145,7 +145,8 @@ class MediaList(cssutils.util._NewListBase):
             for item in seq:
                 # filter for doubles?
                 if item.type == 'MediaQuery':
-                    mediaType = item.value.mediaType
+                    # media types are case-insensitive (as in appendMedium)
+                    mediaType = normalize(item.value.mediaType)
                     if mediaType:
                         if mediaType == 'all':
                             # remove anthing else and keep all+comments(!) only
